@@ -410,7 +410,7 @@ func (g *Gen) isNilTerm(x string, t VType) string {
 	case "Int":
 		return fmt.Sprintf("(= %s 0)", x)
 	case "Slice":
-		return fmt.Sprintf("(= (s-arr %s) 0)", x)
+		return fmt.Sprintf("(= %s nil_slice)", x)
 	case "Iface":
 		return fmt.Sprintf("(= %s nil_iface)", x)
 	}
@@ -432,8 +432,8 @@ func (g *Gen) trQuant(e *CQuant, env *Env) (string, VType) {
 		} else {
 			saved[v.Name] = nil
 		}
-		g.nfresh++
-		bn := fmt.Sprintf("q_%s_%d", v.Name, g.nfresh)
+		g.nq++
+		bn := fmt.Sprintf("q_%s_%d", v.Name, g.nq)
 		env.vars[v.Name] = EnvVal{term: bn, ty: vt}
 		binders = append(binders, fmt.Sprintf("(%s %s)", bn, vt.sort()))
 	}
@@ -506,7 +506,14 @@ func (g *Gen) trAs(e CExpr, env *Env, want string) (string, VType) {
 	if want == "Bytes" && ty.Go != nil {
 		if isByteSlice(ty.Go) {
 			r := g.elemRegion(types.Typ[types.Uint8])
-			return fmt.Sprintf("(bytesOf (select %s (s-arr %s)) (s-off %s) (s-len %s))", g.heapGet(env.heap, r), t, t, t), VType{Sort: "Bytes"}
+			e := g.heapGet(env.heap, r)
+			bt := fmt.Sprintf("(bytesOf (select %s (s-arr %s)) (s-off %s) (s-len %s))", e, t, t, t)
+			if !strings.Contains(t, "q_") && !g.declSet["b0:"+bt] {
+				// ground bridge between the abstract byte string and the slice's first element (index form `at`)
+				g.declSet["b0:"+bt] = true
+				g.assert(fmt.Sprintf("(= (bat %s 0) (select (select %s (s-arr %s)) (at %s 0)))", bt, e, t, t))
+			}
+			return bt, VType{Sort: "Bytes"}
 		}
 		if isString(ty.Go) {
 			return fmt.Sprintf("(strbytes %s)", t), VType{Sort: "Bytes"}
@@ -600,6 +607,16 @@ func (g *Gen) trCall(e *CCall, env *Env) (string, VType) {
 			ref = fmt.Sprintf("(s-arr %s)", x)
 		}
 		return fmt.Sprintf("(select %s %s)", g.heapGet(env.heap, g.allocRegion()), ref), goBool
+	case "upd":
+		// upd(a, k, v): array update
+		a, at := g.tr(e.Args[0], env)
+		if !strings.HasPrefix(at.Sort, "(Array ") {
+			trFail("upd of non-array")
+		}
+		ks, vs := arraySorts(at.Sort)
+		k, _ := g.trAs(e.Args[1], env, ks)
+		v, _ := g.trAs(e.Args[2], env, vs)
+		return fmt.Sprintf("(store %s %s %s)", a, k, v), at
 	case "isa":
 		// isa(x, T): the reference x was allocated as a struct of type T
 		x, _ := g.tr(e.Args[0], env)
